@@ -166,6 +166,7 @@ pub fn arb_long_key() -> BoxedStrategy<String> {
 		3 => (0u32..40).prop_map(|i| format!("a-rather-long-key-number-{i}")),
 		2 => (0u32..12).prop_map(|i| format!("sixteen-bytes-{i:03}")),
 		2 => (0u32..30).prop_map(|i| format!("k{i}")),
+		2 => (0u32..3000).prop_map(|i| format!("key{i}")),
 		1 => vec(arb_char(), 17..60).prop_map(|v| v.into_iter().collect::<String>()),
 		1 => arb_key(true),
 	]
@@ -181,6 +182,12 @@ pub fn arb_large_value(dups: bool) -> BoxedStrategy<RefValue> {
 	let s = prop_oneof![
 		// wide object
 		3 => vec((arb_long_key(), scalar.clone()), 9..120).prop_map(RefValue::Obj),
+		// very wide object with (mostly) distinct keys: several growth cycles of the key index (3, 7, 14, 28, 56, 112, 224, ...)
+		2 => vec(((0u32..100_000).prop_map(|i| format!("member-{i}")), scalar.clone()), 100..480).prop_map(RefValue::Obj),
+		// heavy duplication: one to three keys repeated dozens of times, a few other members in between
+		2 => (vec(prop_oneof![8 => (0u8..3).prop_map(|i| ["dup", "dup-with-a-longer-name", ""][i as usize].to_string()), 1 => arb_long_key()], 15..90), vec(0u32..1000, 90)).prop_map(|(keys, vals)| {
+			RefValue::Obj(keys.into_iter().zip(vals).map(|(k, v)| (k, RefValue::Num(v.to_string()))).collect())
+		}),
 		// wide array
 		2 => vec(scalar.clone(), 9..200).prop_map(RefValue::Arr),
 		// array of records
